@@ -79,6 +79,25 @@ def run(ctx):
                 ctx.fail('paulis()', 'rows of a 2-d code array parsed to %s, expected twice %s' % (impl.ops_of(rows2), op), dict(P=op))
         except Exception as e:
             ctx.fail('paulis()', 'implementation raised %r on a 2-d code array' % e, dict(P=op))
+        # the number of qubits stated explicitly next to a description that already fixes it (prefixed strings, code lists with a
+        # phase code, mixed with dicts in one paulis() call)
+        for desc_, fmt_ in ((PRE[p][-1] + ''.join(letters), 'string+N'), (codes + [PCODE[p]], 'codes-list+N'), ([PCODE[p]] + codes, 'codes-prefix+N')):
+            try:
+                pN = pc.pauli(desc_, N=n)
+                gotN = (O.from_gp(pN.g, pN.p)[0], int(pN.p) % 4)
+            except Exception as e:
+                gotN = impl.errname(e)
+            ctx.count('fmt=' + fmt_)
+            if gotN != op:
+                ctx.fail('pauli()', 'description %r with N=%d stated explicitly parsed to %s, expected %s' % (desc_, n, gotN, op), dict(desc=str(desc_), fmt=fmt_))
+        try:
+            dmix = {0: 'X'}
+            lm = pc.paulis(PRE[p][-1] + ''.join(letters), dmix, N=n)
+            wantm = [op, (tuple('X' if i_ == 0 else 'I' for i_ in range(n)), 0)]
+            if impl.ops_of(lm) != wantm:
+                ctx.fail('paulis()', 'a prefixed string and a dict in one call with N=%d parsed to %s' % (n, impl.ops_of(lm)), dict(P=op))
+        except Exception as e:
+            ctx.fail('paulis()', 'a prefixed string and a dict in one call with N=%d raised %r' % (n, e), dict(P=op))
         if p == 0:
             parse_check(codes, codes, op, 'codes-nophase')
             d = {i: CODE[c] for i, c in enumerate(letters) if c != 'I'}
@@ -115,6 +134,9 @@ def run(ctx):
                 if impl.ops_of(Q_) != O.oscale(op, k):
                     ctx.fail('Pauli.__rmul__', 'multiplication by %s gives %s' % (c, impl.ops_of(Q_)), dict(P=op))
                 ctx.q('smuli', 'smuli %d %s' % (k, E.epauli(O.to_g(letters), p)), impl.ops_of(Q_), lambda s: O.from_gp(*E.dpauli(s)))
+                backq = pc.pauli(repr(Q_))          # a unit times an operator is an operator again: its printed form parses back to it
+                if O.from_gp(backq.g, backq.p) != O.oscale(op, k):
+                    ctx.fail('Pauli.__rmul__', '%s times the operator prints as %r, which parses to %s' % (c, repr(Q_), O.from_gp(backq.g, backq.p)), dict(P=op, c=str(c)))
             except Exception as e:
                 ctx.fail('Pauli.__rmul__', 'implementation raised %r' % e, dict(P=op, c=str(c)))
         if impl.ops_of(-P) != O.oneg(op):
